@@ -396,6 +396,11 @@ func (x *planExec) finish(op *Op, res *OpResult) {
 	if exp.SameAs != "" {
 		x.checkSame(op, res, exp.SameAs, method)
 	}
+	if exp.SameAsIfOK != "" && res.Class() == "ok" {
+		if ref := x.results[exp.SameAsIfOK]; ref != nil && ref.Class() == "ok" {
+			x.checkSame(op, res, exp.SameAsIfOK, method)
+		}
+	}
 	if exp.SameResultAs != "" {
 		x.checkSameResult(op, res, exp.SameResultAs, method)
 	}
